@@ -351,7 +351,8 @@ def get_edges(blocks, first_edge=0, polarity=0, analyse=False):
                         tstates += d
                         edges.append(tstates)
                 bt = b_timings[data[-1]]
-                for d in bt[:(len(bt) * timings.used_bits) // 8]:
+                num_pulses = sum(len(timings.one if (data[-1] << j) & 0x80 else timings.zero) for j in range(timings.used_bits))
+                for d in bt[:num_pulses]:
                     tstates += d
                     edges.append(tstates)
 
